@@ -528,6 +528,17 @@ class Authorization(Endpoint):
                 request[verified_claim_name("request")] = _ver_request
             else:
                 raise ServiceError("Got a %s response", _resp.status)
+        else:
+            # A request object passed by value has been unpacked by request.verify().
+            # Apply the same policy as for one passed by reference.
+            _ver_request = request.get(verified_claim_name("request"))
+            _header = getattr(_ver_request, "jws_header", None)
+            if _ver_request is not None and _header is not None:
+                self.allowed_request_algorithms(
+                    client_id, context, _header.get("alg", "RS256"), "sign"
+                )
+                if _ver_request.get("client_id", client_id) != client_id:
+                    raise ValueError("The request object names another client")
 
         return request
 
